@@ -5,7 +5,8 @@ import GarbleVerif.Model.SrcSem
 
 `bitExpr` follows `compile.rs` (`TypedExpr::compile`) on the core fragment of the language —
 Booleans and integers of every width, literals, variables, `!`, unary `-`, `+`, `-`, `<`, `>`,
-`==`, `!=`, `&`, `|`, `^` on Booleans, `&&`, `||`, `if`/`else`, blocks with immutable `let` — but
+`<=`, `>=`, `==`, `!=`, `&`, `|`, `^` on Booleans, `&&`, `||`, casts between all of these types,
+`if`/`else`, blocks with immutable `let` — but
 instead of emitting gates it computes the value every wire would carry for given inputs:
 operands become big-endian bit lists, operators are the bit-list functions of `Model/Arith.lean`
 (the same functions that C03 ties to `CircuitBuilder`), and the panic record is its abstract
@@ -30,6 +31,14 @@ deriving DecidableEq, Repr, Inhabited
 def STy.toTy : STy → Ty
   | .bool => .bool
   | .int k => .int k
+
+def STy.signed : STy → Bool
+  | .bool => false
+  | .int k => k.signed
+
+def STy.bits : STy → Nat
+  | .bool => 1
+  | .int k => k.bits
 
 def STy.ofTy : Ty → Option STy
   | .bool => some .bool
@@ -69,6 +78,13 @@ def binBits (op : Src.BinOp) (t : STy) (x y : List Bool) : Option (STy × List B
   | .sub, .int k => let r := Arith.binop .sub k.signed k.signed k.signed x y; some (.int k, r.1, r.2)
   | .lt, .int k => let r := Arith.binop .lt k.signed k.signed false x y; some (.bool, r.1, r.2)
   | .gt, .int k => let r := Arith.binop .gt k.signed k.signed false x y; some (.bool, r.1, r.2)
+  /- `a <= b` is parsed as `(a < b) | (a == b)` (both copies of the operands give the same wires) -/
+  | .le, .int k =>
+    let c := Arith.comparator x k.signed y k.signed
+    some (.bool, [Arith.bOr c.1 (Arith.eqBits x y)], [])
+  | .ge, .int k =>
+    let c := Arith.comparator x k.signed y k.signed
+    some (.bool, [Arith.bOr c.2 (Arith.eqBits x y)], [])
   | .eq, _ => let r := Arith.binop .eq false false false x y; some (.bool, r.1, r.2)
   | .ne, _ => let r := Arith.binop .ne false false false x y; some (.bool, r.1, r.2)
   | .band, .bool => let r := Arith.binop .bitAnd false false false x y; some (.bool, r.1, r.2)
@@ -129,6 +145,14 @@ def bitExpr (benv : BEnv) : Expr → Option (STy × List Bool × P)
             | some (tr, r, panics) => some (tr, r, seqP p1 (seqP p2 (firstOf panics)))
             | none => none
           else none
+  /- `as`: same width, truncation, or extension by the sign / zero of the source type; never a panic -/
+  | .cast src dst a =>
+    match STy.ofTy src, STy.ofTy dst with
+    | some ts, some td =>
+      match bitExpr benv a with
+      | some (ta, x, p1) => if ta = ts then some (td, Arith.cast x ts.signed td.bits, p1) else none
+      | none => none
+    | _, _ => none
   /- both branches are compiled, bits and panic are selected by the condition afterwards -/
   | .ite c t f =>
     match bitExpr benv c with
